@@ -35,11 +35,26 @@ Inductive cb :=
   | CbRaise            (* the callback raised *)
   | CbOther.           (* any other object (None, ...) *)
 
+(* result of one SFTPHandle.read call made by _check_file (an oracle input) *)
+Inductive rd :=
+  | RBytes (n : Z)     (* bytes of length n (0 = end of file; may be short) *)
+  | RStr (n : Z)       (* a str of length n (not bytes) *)
+  | RCode (k : Z)      (* an int error code *)
+  | ROther             (* any other object *)
+  | RRaise.            (* read raised *)
+
+(* the check-file arguments: does the algorithm list decode (else UnicodeDecodeError in get_list),
+   does it name md5 or sha1, start, length, block size, what handle.stat() returns (CbAttr carries
+   st_size = cf_size), and the results of the successive handle.read calls *)
+Record cfargs := mkCf { cf_list_ok : bool; cf_alg_ok : bool; cf_start : Z; cf_length : Z; cf_block : Z;
+                        cf_stat : cb; cf_size : Z; cf_reads : list rd }.
+Definition cf_none : cfargs := mkCf true true 0 0 0 CbOther 0 [].
+
 (* a request: packet type, request id, whether every get_text() of its parse decodes (else
    UnicodeDecodeError), the handle it names (n for b"hx<n>", -1 for any other string), the extended
    request name (0 = check-file, 1 = posix-rename@openssh.com, 2 = anything else), the callback
-   result, and - for check-file only - what the black box _check_file did (C32 owns it) *)
-Record req := mkReq { q_t : Z; q_id : Z; q_text_ok : bool; q_h : Z; q_tag : Z; q_cb : cb; q_cf : out }.
+   result, and - for check-file only - its arguments *)
+Record req := mkReq { q_t : Z; q_id : Z; q_text_ok : bool; q_h : Z; q_tag : Z; q_cb : cb; q_cf : cfargs }.
 
 (* server state: next_handle, keys of file_table, folder_table with the number of unread entries *)
 Record sst := mkS { s_next : Z; s_files : list Z; s_folders : list (Z * Z) }.
@@ -101,6 +116,50 @@ Definition attrs_or_status (id : Z) (c : cb) : out :=
   | CbAttr => Done [(g_CMD_ATTRS, id, 0)]
   | c => send_status_cb id c
   end.
+
+(* _send_status(id, x, desc) with an explicit description (no SFTP_DESC lookup): _response packs an int
+   with add_int (struct.error outside u32), a str / bytes with add_string (a malformed STATUS packet is
+   still ONE STATUS packet; detail = the length prefix), and raises for anything else *)
+Definition send_status_desc_cb (id : Z) (c : cb) : out :=
+  match c with
+  | CbCode k => send_status id k
+  | CbBytes n => Done [status id n]
+  | _ => Exc []
+  end.
+
+(* the hashing loops of _check_file, one step per handle.read call: while offset < start + length and
+   not eof; a read that is not bytes ends the request with a STATUS (and return); b"" ends the range;
+   data advances offset.  (Block boundaries only decide how many bytes each read asks for; which digests
+   come out is C32's.)  A script that runs out stands for end of file. *)
+Fixpoint cf_loop (id lim offset : Z) (reads : list rd) : out :=
+  if lim <=? offset then Done [(g_CMD_EXTENDED_REPLY, id, 0)] else
+  match reads with
+  | [] => Done [(g_CMD_EXTENDED_REPLY, id, 0)]
+  | r :: rest =>
+      match r with
+      | RBytes n => if n <=? 0 then Done [(g_CMD_EXTENDED_REPLY, id, 0)] else cf_loop id lim (offset + n) rest
+      | RStr n => Done [status id n]
+      | RCode k => send_status id k
+      | ROther | RRaise => Exc []
+      end
+  end.
+
+(* SFTPServer._check_file after its parse of the handle string *)
+Definition check_file (s : sst) (id h : Z) (a : cfargs) : out :=
+  if negb (cf_list_ok a) then Exc [] else
+  if negb (memz h (s_files s)) then invalid_handle id else
+  if negb (cf_alg_ok a) then send_status id g_SFTP_FAILURE else
+  let after_len (length : Z) : out :=
+    let bs := if cf_block a =? 0 then length else cf_block a in
+    if bs <? 256 then send_status id g_SFTP_FAILURE
+    else cf_loop id (cf_start a + length) (cf_start a) (cf_reads a) in
+  if cf_length a =? 0 then
+    match cf_stat a with
+    | CbAttr => after_len (cf_size a - cf_start a)
+    | CbRaise => Exc []
+    | c => send_status_desc_cb id c
+    end
+  else after_len (cf_length a).
 
 Definition process (s : sst) (q : req) : sst * out :=
   let id := q_id q in
@@ -174,7 +233,7 @@ Definition process (s : sst) (q : req) : sst * out :=
       end
   | KExtended =>
       if negb (q_text_ok q) then (s, Exc []) else
-      if q_tag q =? 0 then (s, q_cf q)
+      if q_tag q =? 0 then (s, check_file s id h (q_cf q))
       else if q_tag q =? 1 then (s, send_status_cb id c)
       else (s, send_status id g_SFTP_OP_UNSUPPORTED)
   | KUnhandled => (s, send_status id g_SFTP_OP_UNSUPPORTED)
@@ -203,12 +262,6 @@ Definition valid_for (t rt : Z) : bool :=
   || (((t =? g_CMD_READDIR) || (t =? g_CMD_READLINK) || (t =? g_CMD_REALPATH)) && (rt =? g_CMD_NAME))
   || (((t =? g_CMD_STAT) || (t =? g_CMD_LSTAT) || (t =? g_CMD_FSTAT)) && (rt =? g_CMD_ATTRS))
   || ((t =? g_CMD_EXTENDED) && (rt =? g_CMD_EXTENDED_REPLY)).
-
-(* the assumption about the black box: _check_file sends exactly one EXTENDED_REPLY or STATUS packet
-   with the request's id, or raises before sending anything *)
-Definition cf_ok (q : req) : Prop :=
-  q_cf q = Exc [] \/
-  exists rt d, q_cf q = Done [(rt, q_id q, d)] /\ (rt = g_CMD_STATUS \/ rt = g_CMD_EXTENDED_REPLY).
 
 (* requests that name a handle *)
 Definition handle_kind (k : kind) : bool :=
